@@ -35,7 +35,7 @@ def run(ctx, rep):
     total_cells = 0
     for incl in (1, 0):
         I = new_interp(f, abstract=())
-        r = run_fn(I, name, [n, C(incl)])
+        r = byte_view(I, run_fn(I, name, [n, C(incl)]))
         rep.analysed.add(name)
         if I.tops or not isinstance(r, SeqV):
             rep.undecided('cells', '%s(include_self=%d)' % (name, incl), I.tops, b['sp']); continue
